@@ -1,4 +1,5 @@
 import Adsb.TrackerF
+import Adsb.Gen.Formulas
 import Adsb.Theorems.C13
 import Mathlib.Analysis.SpecialFunctions.Trigonometric.Inverse
 import Mathlib.Analysis.SpecialFunctions.Complex.Arg
@@ -167,6 +168,17 @@ example : hav (10, 20) (11, 20) = 6371 * (π / 180) := by
     rw [hc, Real.cos_sub]
     linear_combination (cos (10 * (π / 180)) * cos (11 * (π / 180))) * Real.sin_sq_add_cos_sq (20 * (π / 180))
   rw [this, Real.arccos_cos (by positivity) (by nlinarith)]
+
+/-! ## the formula as translated from the source on this run -/
+
+/-- `haversine_distance` as written in `rsadsb_common/src/lib.rs` today (translated by `tools/rust2lean.py`, generic in the number type)
+is, term for term, the definition the theorems above are about -/
+theorem src_haversine_eq {α : Type} (H : HavOps α) (s o : α × α) : Gen.haversineSrc H s o = haversineG H s o := rfl
+
+/-- **the distance function of the source text is the great-circle distance** (over the reals) -/
+theorem src_haversine_is_great_circle (p q : ℝ × ℝ) (hp : |p.1| ≤ 90) (hq : |q.1| ≤ 90) :
+    Gen.haversineSrc realHav p q = greatCircle p q := by
+  rw [src_haversine_eq]; exact haversine_is_great_circle p q hp hq
 
 /-! ## the plausibility test of the tracker, in great-circle terms -/
 
